@@ -575,6 +575,10 @@ where
                     let lane_len = header.get_u32() as usize;
                     let body_len_and_tag = header.get_u64();
                     let tag = (body_len_and_tag & OP_MASK) >> OP_SHIFT;
+                    let body_len = (body_len_and_tag & !OP_MASK) as usize;
+                    if matches!(tag, LINK | SYNC | UNLINK) && body_len != 0 {
+                        break Err(std::io::Error::from(std::io::ErrorKind::InvalidData).into());
+                    }
                     if src.remaining() < HEADER_INIT_LEN + node_len + lane_len {
                         src.reserve(node_len + lane_len);
                         break Ok(None);
@@ -608,7 +612,6 @@ where
                             }));
                         }
                         COMMAND => {
-                            let body_len = (body_len_and_tag & !OP_MASK) as usize;
                             *state = RequestState::ReadingBody {
                                 source: id,
                                 path,
@@ -730,6 +733,10 @@ impl Decoder for RawResponseMessageDecoder {
         let lane_len = header.get_u32() as usize;
         let body_len_and_tag = header.get_u64();
         let body_len = (body_len_and_tag & !OP_MASK) as usize;
+        let tag = (body_len_and_tag & OP_MASK) >> OP_SHIFT;
+        if matches!(tag, LINKED | SYNCED) && body_len != 0 {
+            return Err(std::io::Error::from(std::io::ErrorKind::InvalidData));
+        }
         let required = HEADER_INIT_LEN + node_len + lane_len + body_len;
         if src.remaining() < required {
             return Ok(None);
@@ -744,7 +751,6 @@ impl Decoder for RawResponseMessageDecoder {
             .map_err(|_| std::io::Error::from(std::io::ErrorKind::InvalidData))?;
 
         let path = RelativeAddress::new(node, lane);
-        let tag = (body_len_and_tag & OP_MASK) >> OP_SHIFT;
         match tag {
             LINKED => Ok(Some(BytesResponseMessage::linked(target, path))),
             SYNCED => Ok(Some(BytesResponseMessage::synced(target, path))),
@@ -781,6 +787,10 @@ impl Decoder for RawRequestMessageDecoder {
         let lane_len = header.get_u32() as usize;
         let body_len_and_tag = header.get_u64();
         let body_len = (body_len_and_tag & !OP_MASK) as usize;
+        let tag = (body_len_and_tag & OP_MASK) >> OP_SHIFT;
+        if matches!(tag, LINK | SYNC | UNLINK) && body_len != 0 {
+            return Err(std::io::Error::from(std::io::ErrorKind::InvalidData));
+        }
         let required = HEADER_INIT_LEN + node_len + lane_len + body_len;
         if src.remaining() < required {
             return Ok(None);
@@ -795,7 +805,6 @@ impl Decoder for RawRequestMessageDecoder {
             .map_err(|_| std::io::Error::from(std::io::ErrorKind::InvalidData))?;
 
         let path = RelativeAddress::new(node, lane);
-        let tag = (body_len_and_tag & OP_MASK) >> OP_SHIFT;
         match tag {
             LINK => Ok(Some(RequestMessage::link(origin, path))),
             SYNC => Ok(Some(RequestMessage::sync(origin, path))),
